@@ -460,7 +460,9 @@ Definition c04_sb (c : cfg) (init : N) (hist : list round_obs) (o : seen) : bool
 (** C19.  Sizes 1, 2, 4, ... up to the first passing round, constant from
     there; only the rounds from the first passing one on (or the newest one,
     if none passed) left samples, as many as their threads; the final size is
-    the last round's; the time ceiling was not reached before any round. *)
+    the last round's; the rounds follow the rule with the first passing round
+    counting as the first recorded one and the time ceiling covering the
+    tuning rounds. *)
 Definition expected_samples (c : cfg) (size : N) (kept : list round_obs) : list N :=
   flat_map (fun o => map (fun r => sample_duration c size r (dur_ps (c_freq c) (r_end r) (r_start r))) o) kept.
 
@@ -474,6 +476,7 @@ Definition c19_sb (c : cfg) (init : N) (hist : list round_obs) (o : seen) : bool
     (o_final_size o =? match k with O => 0 | S k' => size_of_round c hist k' end) &&
     (if c_input_counts c then (length (o_counts o) =? length (o_samples o))%nat else true) &&
     forallb (fun key => key <? N.of_nat (length (o_samples o))) (o_alloc_keys o) &&
-    forallb (fun j => elapsed_after c init hist j <? c_max c) (seq 0 k) &&
+    forallb (fun j => continue_after c init hist j) (seq 0 k) &&
+    (if o_done o then negb (continue_after c init hist k) else continue_after c init hist k) &&
     (o_stat_samples o =? N.of_nat (length (o_samples o))) &&
     (o_stat_iters o =? N.of_nat (length (o_samples o)) * o_final_size o).
